@@ -368,11 +368,37 @@ def run(ctx):
         from .. import customspec
         customspec.scenario(ctx, 'eval(repr(file)) == file', 'eval(repr(meta)) == meta', 'eval(repr(meta)) == meta')
         n += 1
+    from .. import coldstart
+    n += coldstart.phase(ctx, cold_jobs(), 'from_str(str(m)) == m', offset=5)
     ctx.count('cases', n)
+
+
+def cold_jobs():
+    """Cold start: the first text conversions of a fresh interpreter, made by two threads."""
+    from ..coldstart import msg_want
+
+    def fs(text, t, a, time=0):
+        return {'fn': 'from_str', 'arg': text, 'want': msg_want(t, a, time=time)}
+
+    def st(t, a, text):
+        return {'fn': 'str', 'type': t, 'attrs': a, 'want': text}
+    pw = fs('pitchwheel channel=2 pitch=-5 time=1.5', 'pitchwheel', {'channel': 2, 'pitch': -5}, 1.5)
+    sx = fs('sysex data=(1,2) time=0', 'sysex', {'data': [1, 2]})
+    no = fs('note_on note=60 time=3', 'note_on', {'channel': 0, 'note': 60, 'velocity': 64}, 3)
+    spw = st('pitchwheel', {'channel': 2, 'pitch': -5}, 'pitchwheel channel=2 pitch=-5 time=0')
+    ssx = st('sysex', {'data': [1, 2]}, 'sysex data=(1,2) time=0')
+    sck = st('clock', {}, 'clock time=0')
+    others = [sx, spw, no, ssx, pw, sck, fs('songpos pos=7', 'songpos', {'pos': 7})]
+    mods = ['mido.messages.strings', 'mido.messages.messages', 'mido.messages.checks', 'mido.messages.specs']
+    return [{'modules': mods, 'jobs': [first, others], 'k': 1} for first in ([pw], [ssx], [sx, sck], [spw, no])]
 
 
 def replay(ctx, case):
     k = case['kind']
+    if k == 'cold':
+        from .. import coldstart
+        coldstart.replay(ctx, case, 'from_str(str(m)) == m')
+        return
     if k == 'msg':
         a = dict(case['attrs'])
         if 'data_len' in a:
